@@ -308,6 +308,21 @@ def run(ctx):
             ctx.seen((name, kind, tuple(info.get("rep", ())), not probs))
             for p_ in probs[:1]:
                 ctx.fail_input("metamorphic", dict(case0, transform=name, **info), p_, classify)
+    # ---- crafted permutation cases: two elements that both occur at least twice, atom order reversed / rotated (does not depend on the draw)
+    for syms_, L_ in ((["C", "C", "H", "H", "O"], [[8, 0, 0], [0, 9, 0], [0, 0, 10]]), (["H", "N", "H", "N", "N", "H"], [[9, 0, 0], [2, 8, 0], [1, 1, 10]]),
+                      (["O", "C", "O", "C"], [[7, 0, 0], [0, 8, 0], [3, 0, 9]])):
+        n_ = len(syms_)
+        pos_ = [(1 + 2 * i, (3 * i) % 5, (2 * i * i) % 7) for i in range(n_)]
+        case_ = dict(L=L_, pos=[list(p) for p in pos_], syms=syms_)
+        try:
+            ob_ = observables(mk(syms_, pos_, L_))
+            for pm_ in (list(range(n_))[::-1], list(range(1, n_)) + [0], [1, 0] + list(range(2, n_))):
+                ctx.evaluations += 1
+                ov_ = observables(build_variant(case_, "permute", dict(perm=pm_)))
+                for p_ in judge(ob_, ov_, "permute", dict(perm=pm_), None)[:1]:
+                    ctx.fail_input("metamorphic", dict(case_, transform="permute", perm=pm_), p_, classify)
+        except Exception as e:
+            ctx.fail_input("metamorphic", dict(case_, transform="permute"), "observables raised %s: %s" % (type(e).__name__, str(e)[:160]), classify)
     # ---- tight clusters in roomy cells, re-described by unimodular matrices after which the shortest lattice vector is no +-1 combination of the rows:
     #      the couplings of each nucleus with its own nearest copy, the pair couplings and the RSS must not notice
     NONRED = [((1, 1, 0), (1, 2, 0), (0, 0, 1)), ((2, 1, 0), (3, 2, 0), (0, 0, 1)), ((1, 0, 1), (0, 1, 0), (1, 0, 2)), ((1, 2, 0), (1, 3, 0), (0, 0, 1)),
